@@ -179,4 +179,8 @@ def main(pid, tier, replay=None):
     for c in cases[:2]:
         res.sample([json.loads(x) for x in c][:3])
     res.assumptions += ["the regex crate decides what a rule's regular expression matches at an offset (environment); selection, ties, start states, tiling and errors are decided by the specification"]
+    if not replay:
+        # the generated (compile-time) lexer is a lexer too
+        from . import p_ctrt
+        p_ctrt.ct_lexers(res, pid, tier)
     return res.finish()
